@@ -15,7 +15,7 @@ import (
 )
 
 var recDeliv = kit.NewRecorder("C02", "delivery",
-	"real goroutines: 1-6 senders x 1-15 uniquely numbered items (message by pid/name/alias with normal/high/max priority, exit signal to a trapping receiver, request from a sender process, event publication, SendAfter with a racing cancel) against a receiver with mailbox {unbounded,1,2,3,8}, fallback {none, other process, itself, missing name}, handler cost 0-20us, optionally parked behind a gate while the senders run; "+
+	"real goroutines: 1-6 senders x 1-15 uniquely numbered items (message by pid/name/alias with normal/high/max priority, exit signal to a trapping receiver, request from a sender process, event publication, SendAfter with a racing cancel) against a receiver with mailbox {unbounded,1,2,3,8}, fallback {none, other process (mailbox unbounded, 1 or 2), itself, missing name}, handler cost 0-20us, optionally parked behind a gate while the senders run; "+
 		"oracle (conservation both ways): handled-by-receiver + handled-by-fallback == accepted sends as multisets, refused sends handled nowhere, fallback copies carry MessageFallback{PID,Tag,Message}, cancel()==true => never delivered, false => exactly once, never 'asleep with non-empty mailbox'; "+
 		"non-trivial = at least one refused push, or >= 2 concurrent senders with >= 5 items in total, or a cancel within 300us of the timer's due time; distinct by case script")
 
@@ -40,6 +40,12 @@ func propDelivery(t *rapid.T) {
 	fbMode := 0
 	if mbox > 0 {
 		fbMode = rapid.IntRange(0, 3).Draw(t, "fallback") // 0 none 1 other 2 itself 3 missing
+	}
+	// the fallback process has a bounded mailbox of its own in some cases: what it cannot take is
+	// refused to the sender, never reported as sent
+	fbBox := int64(0)
+	if fbMode == 1 {
+		fbBox = rapid.SampledFrom([]int64{0, 0, 1, 2}).Draw(t, "fallback_mailbox")
 	}
 	spinNs := int64(rapid.IntRange(0, 20).Draw(t, "spin_us")) * 1000
 	gated := rapid.Bool().Draw(t, "gated")
@@ -78,7 +84,8 @@ func propDelivery(t *rapid.T) {
 	probe := kit.NewProbe()
 
 	fbCfg := &kit.ActorConfig{Label: "fb", Probe: probe}
-	if _, err := node.SpawnRegister("fb", kit.Factory(fbCfg), gen.ProcessOptions{}); err != nil {
+	fbPID, err := node.SpawnRegister("fb", kit.Factory(fbCfg), gen.ProcessOptions{MailboxSize: fbBox})
+	if err != nil {
 		t.Fatalf("spawn fb: %v", err)
 	}
 	opts := gen.ProcessOptions{MailboxSize: mbox}
@@ -169,6 +176,15 @@ func propDelivery(t *rapid.T) {
 			t.Fatalf("gate: %v", err)
 		}
 		<-gate.Entered
+	}
+	var fbGate kit.Gate
+	if gated && fbBox > 0 {
+		// the bounded fallback process is parked as well, so that it really fills up
+		fbGate = kit.Gate{Entered: make(chan struct{}), Open: make(chan struct{})}
+		if err := node.SendWithPriority(fbPID, fbGate, gen.MessagePriorityMax); err != nil {
+			t.Fatalf("gate fb: %v", err)
+		}
+		<-fbGate.Entered
 	}
 	info0, _ := node.ProcessInfo(pid)
 
@@ -271,6 +287,9 @@ func propDelivery(t *rapid.T) {
 		case <-time.After(time.Duration(rapid.IntRange(0, 3).Draw(t, "open_ms")) * time.Millisecond):
 		}
 		close(gate.Open)
+		if fbGate.Open != nil {
+			close(fbGate.Open)
+		}
 	}
 	wg.Wait()
 	time.Sleep(8 * time.Millisecond) // let the last delayed sends fire (max delay 4 ms)
@@ -361,7 +380,7 @@ func propDelivery(t *rapid.T) {
 		if mbox == 0 {
 			t.Fatalf("item %v to a live unbounded receiver was refused: %v", m, e)
 		}
-		if fbMode == 1 && errors.Is(e, gen.ErrProcessMailboxFull) && (m.Sender == -1 || plans[m.Sender][m.N].Kind == 0) {
+		if fbMode == 1 && fbBox == 0 && errors.Is(e, gen.ErrProcessMailboxFull) && (m.Sender == -1 || plans[m.Sender][m.N].Kind == 0) {
 			t.Fatalf("message %v was refused (%v) although a live fallback process with an unbounded mailbox is configured: it belongs to the fallback", m, e)
 		}
 		if m.Sender == -1 && int64(m.N) < mbox {
@@ -397,6 +416,9 @@ func propDelivery(t *rapid.T) {
 	refused := len(errSet) > 0 || len(handledFb) > 0
 	nontrivial := refused || raced || (nsend >= 2 && total >= 5)
 	labels := []string{fmt.Sprintf("mailbox=%d", mbox), fmt.Sprintf("fallback=%d", fbMode)}
+	if fbBox > 0 {
+		labels = append(labels, "bounded-fallback")
+	}
 	if selfInit > 0 {
 		labels = append(labels, "self-send-in-init")
 	}
@@ -419,7 +441,7 @@ func propDelivery(t *rapid.T) {
 		}
 	}
 	sort.Strings(keys)
-	recDeliv.Case(nontrivial, fmt.Sprintf("mbox=%d fb=%d gated=%v spin=%d selfinit=%d plans=%v refused=%d", mbox, fbMode, gated, spinNs, selfInit, keys, len(errSet)), labels...)
+	recDeliv.Case(nontrivial, fmt.Sprintf("mbox=%d fb=%d/%d gated=%v spin=%d selfinit=%d plans=%v refused=%d", mbox, fbMode, fbBox, gated, spinNs, selfInit, keys, len(errSet)), labels...)
 }
 
 func TestDelivery(t *testing.T) {
